@@ -258,6 +258,27 @@ def judge_kill(sb, case, obs):
     for x in want:
         if x not in have:
             fails.append("%s: a content file (sha256 %s…) of the version being committed is in full neither in staging nor in the object" % (what, x))
+    # … and every content path the staged inventory lists for that version is a complete file in one of the two
+    # places (a path listed but present in neither is content that a retried commit would lose)
+    sinv_path = os.path.join(obs["staged_dir"], "inventory.json")
+    if os.path.isfile(sinv_path):
+        try:
+            sinv = json.load(open(sinv_path))
+        except ValueError:
+            sinv = None
+        if sinv and sinv.get("head") == v:
+            alg = sinv.get("digestAlgorithm", "sha512")
+            for dg, paths in sinv.get("manifest", {}).items():
+                for pth in paths:
+                    if not pth.startswith(v + "/"):
+                        continue
+                    ok_somewhere = False
+                    for top in (obs["staged_dir"], os.path.join(sb.root, obs["oroot"])):
+                        fp = os.path.join(top, pth)
+                        if os.path.isfile(fp) and hashlib.new(alg, open(fp, "rb").read()).hexdigest() == dg.lower():
+                            ok_somewhere = True
+                    if not ok_somewhere:
+                        fails.append("%s: the staged inventory lists %s but that file is complete neither in staging nor in the object" % (what, pth))
     if obs["cls"] == "other":
         r = sb.run(["validate", case.oid])
         if r["rc"] != 2:
